@@ -39,7 +39,7 @@ CLAIMED = {
     "C16": dict(
         level="proof",
         technique="Lean 4 theorems about a model of the token scanner + correspondence on token streams + syn-full as the expression-grammar oracle",
-        text="Lean theorems over all token streams: what the scanner returns plus what it leaves is the input (verbatim re-emission), it stops only at a top-level comma, for the WHOLE list the arguments found are the input cut at commas, token for token and in order (args_reemitted_verbatim), any number of arguments made of plain tokens and delimited groups is split at exactly the top-level commas (plain_list_split_at_commas), Ident iff a single identifier, commas inside delimited groups / `::<..>` / `<..>::` / closure parameter lists (angle-balanced, any nesting depth) never split; three kernel-checked witnesses document known findings (binary `|`, cast to a generic type, `a < b, c > ::d`). The model is compared with the working-tree FmtAttribute parsing on ~6.5k generated and mutated argument lists, and the implementation with syn's full Expr parser on the same lists",
+        text="Lean theorems over all token streams: what the scanner returns plus what it leaves is the input (verbatim re-emission), it stops only at a top-level comma, for the WHOLE list the arguments found are the input cut at commas, token for token and in order (args_reemitted_verbatim), any number of arguments made of plain tokens and delimited groups is split at exactly the top-level commas (plain_list_split_at_commas), and so is any number of arguments built from plain tokens, groups, turbofish `::<..>`, qualified-path heads `<..>::` and closure parameter lists `|..|`, angle brackets balanced to any depth (chunked_taken_whole, chunked_list_split_at_commas), Ident iff a single identifier, commas inside delimited groups / `::<..>` / `<..>::` / closure parameter lists (angle-balanced, any nesting depth) never split; three kernel-checked witnesses document known findings (binary `|`, cast to a generic type, `a < b, c > ::d`). The model is compared with the working-tree FmtAttribute parsing on ~6.5k generated and mutated argument lists, and the implementation with syn's full Expr parser on the same lists",
         note="Lean kernel; proc_macro2 tokenisation shared by all parties; syn(full) stands for Rust's grammar; four known findings attributed by construct (argument parenthesised => split correct)",
         ref="DESIGN.md §4 C16"),
     "C09": dict(
